@@ -253,7 +253,24 @@ Theorem C12_merkle_flag_count_checked : forall m nf r,
 Proof. exact merkle_flag_count_checked. Qed.
 Print Assumptions C12_merkle_flag_count_checked.
 
-(* memory requested: proportional to the input when accepted, constant + proportional always *)
+(* the count check of fix c4c5793 (hash count against the bytes behind it, before btcd is called) refuses
+   nothing the decoder would accept ... *)
+Theorem C12_merkle_count_check_keeps_acceptance : forall bs,
+  decode_merkle_block bs = match parse_merkle_block bs with Some (m, _) => Some m | None => None end.
+Proof. exact decode_eq_parse. Qed.
+Print Assumptions C12_merkle_count_check_keeps_acceptance.
+
+(* ... and refuses, without reserving anything, every count the remaining input cannot hold *)
+Theorem C12_merkle_hash_count_vs_input : forall hd cnt nh r,
+  length hd = 80%nat -> nh < two64 -> lenN r / 32 < nh ->
+  decode_merkle_block (hd ++ le_enc 4 cnt ++ varint nh ++ r) = None /\
+  alloc_merkle_block (hd ++ le_enc 4 cnt ++ varint nh ++ r) = 0.
+Proof. exact merkle_hash_count_vs_input. Qed.
+Print Assumptions C12_merkle_hash_count_vs_input.
+
+(* memory requested: proportional to the input when accepted; for every input at most the flag-byte cap
+   (alloc_const_bound = wire_max_flags = 50000 bytes, the one reservation btcd makes against a constant
+   rather than the input; within the oracle's allowance) plus nine times the input *)
 Theorem C12_merkle_alloc_accepted : forall bs m r,
   parse_merkle_block bs = Some (m, r) ->
   alloc_merkle_block bs = 96 * lenL (mb_hashes m) + 9 * lenN (mb_flags m) /\
@@ -261,16 +278,14 @@ Theorem C12_merkle_alloc_accepted : forall bs m r,
 Proof. exact alloc_accepted_proportional. Qed.
 Print Assumptions C12_merkle_alloc_accepted.
 
-Theorem C12_merkle_alloc_bounded : forall bs, alloc_merkle_block bs <= alloc_const_bound + 9 * lenN bs.
+Theorem C12_merkle_alloc_bounded : forall bs, alloc_merkle_block bs <= wire_max_flags + 9 * lenN bs.
 Proof. exact alloc_bounded. Qed.
 Print Assumptions C12_merkle_alloc_bounded.
 
-(* "a small multiple of the input length" does NOT hold for rejected inputs: btcd caps the hash
-   count by a constant, not by the bytes present; 89 bytes reserve 16 MB and are then refused *)
-Theorem C12_merkle_alloc_proportional_refuted :
-  lenN greedy_blob = 89 /\ decode_merkle_block greedy_blob = None /\ alloc_merkle_block greedy_blob = 16000040.
-Proof. exact alloc_proportional_refuted. Qed.
-Print Assumptions C12_merkle_alloc_proportional_refuted.
+Theorem C12_merkle_alloc_rejected_bounded : forall bs,
+  decode_merkle_block bs = None -> alloc_merkle_block bs <= wire_max_flags + 2 * lenN bs.
+Proof. exact alloc_rejected_bounded. Qed.
+Print Assumptions C12_merkle_alloc_rejected_bounded.
 
 (* ExtractMatches with its cursors as indices and every index expression partial: it computes what the
    model of C20 computes, so it ends in a value or an error, never in an index out of range *)
